@@ -137,7 +137,8 @@ def case_truediv(acc, auth, segs):
     p = "/".join(segs)
     text = canon_dec(p)
     if auth:
-        return run(acc, "truediv", (auth, segs), lambda: impl.URL("http://h.com/r/s") / p, lambda: rds_auth("/r/s/" + text), True)
+        # a shallow base: arguments of <= 4 segments can climb above the root and still be followed by something
+        return run(acc, "truediv", (auth, segs), lambda: impl.URL("http://h.com/r") / p, lambda: rds_auth("/r/" + text), True)
     return run(acc, "truediv", (auth, segs), lambda: impl.URL("r/s") / p, lambda: "r/s/" + text, False)
 
 
